@@ -166,8 +166,8 @@ Section Doc.
       match parse_usize slot with
       | None => Err 4
       | Some k =>
-        do p <- take 4 bytes;
-        do q <- take (unle (fst p)) (snd p);
+        do p <- take_e 4 bytes;                                      (* after C02's fix 4f977d8: a cut-off name is FileTooShort *)
+        do q <- take_e (unle (fst p)) (snd p);
         do f <- font_dec (Unicode.utf8_lossy (fst q)) (snd q);      (* read_utf8_encoded_string: from_utf8_lossy *)
         Ok (mkDoc (d_w D) (d_h D) (d_btype D) (d_ice D) (d_pmode D) (d_fmode D) (d_sauce D) (d_pal D) (set_font k f (d_fonts D)) (d_layers D), false)
       end
